@@ -458,6 +458,9 @@ def statements(rng, n_query, depth):
         ("(SELECT 1) UNION ALL (SELECT 2) ORDER BY 1", {"k": "query", "q": Q({"b": "setop", "l": {"b": "nested", "q": S()}, "r": {"b": "nested", "q": S()}})}),
         ("SELECT * FROM t JOIN LATERAL (SELECT * FROM u WHERE u.id = t.id) z ON true", {"k": "query", "q": Q(dict(SEL), subs=[S()])}),
         ("/* c */ SELECT 1 -- tail\n", {"k": "query", "q": S()}),
+        # known class F23: sqlparser's parse_as_table swallows the locking clause after TABLE t
+        ("SELECT * FROM (TABLE t FOR UPDATE) AS d", {"k": "query", "q": Q(dict(SEL), subs=[Q({"b": "table"}, locks=True)])}),
+        ("SELECT a FROM u UNION (TABLE t FOR SHARE)", {"k": "query", "q": Q({"b": "setop", "l": dict(SEL), "r": {"b": "nested", "q": Q({"b": "table"}, locks=True)}})}),
     ]
     out += fixed
     out += [(s, {"k": "query", "q": S()}) for s in VOLATILE_CALLS]
